@@ -358,6 +358,10 @@ def audit_arith(ctx, bodies):
             t = blk.term
             if t["k"] != "assert" or t["akind"] == "bounds":
                 continue
+            if t["akind"].startswith("other:MisalignedPointerDereference") or t["akind"].startswith("other:NullPointerDereference"):
+                # debug-build checks in front of a raw-pointer dereference: not arithmetic, and not a function of the
+                # input (unsafe code is audited by C16.unsafe; references and statics are always aligned and non-null)
+                continue
             n += 1
             sc = sc or SiteChecker(ix, b)
             kind = t["akind"]
